@@ -167,8 +167,9 @@ def gen_pair(rng, max_n, allow_inf=True):
 def representation(rng, pts):
     """One of the accepted input forms for this diagram."""
     opts = ["f64", "f64", "list", "view", "fortran"]
-    if pts and all(math.isfinite(x) and float(np.float32(x)) == x for p in pts for x in p):
-        opts += ["f32"]               # exactly representable in single precision
+    if pts and all(math.isfinite(x) and abs(x) < 6e4 for p in pts for x in p):
+        # narrow floats: the diagram *is* the rounded values (oracles must start from the materialised array)
+        opts += ["f32", "f16"]
     if pts and all(math.isfinite(x) and float(x).is_integer() and abs(x) < 2 ** 31 for p in pts for x in p):
         opts += ["i64", "ilist", "i32"]
         if all(0 <= x <= 65535 for p in pts for x in p):
@@ -195,11 +196,14 @@ def materialize(pts, rep="f64"):
         return base[:, 1:4:2]
     if rep == "fortran":
         return np.asfortranarray(np.array(pts, dtype=np.float64).reshape(-1, 2)) if pts else np.zeros((0, 2), order="F")
-    if rep == "f32":
-        from sim.sched import InvalidCase
-        if not all(math.isfinite(x) and float(np.float32(x)) == x for p in pts for x in p):
-            raise InvalidCase("not exactly representable in single precision")
-        return np.array(pts, dtype=np.float32).reshape(-1, 2) if pts else np.zeros((0, 2), dtype=np.float32)
+    if rep in ("f32", "f16"):
+        dt = np.float32 if rep == "f32" else np.float16
+        a = np.array(pts, dtype=np.float64).reshape(-1, 2).astype(dt) if pts else np.zeros((0, 2), dtype=dt)
+        # rounding must not produce death < birth or an overflow to inf
+        if len(a) and (not np.isfinite(a[:, 0]).all() or np.any(a[:, 1] < a[:, 0])):
+            from sim.sched import InvalidCase
+            raise InvalidCase("narrow-float rounding broke birth <= death")
+        return a
     if rep in ("i32", "u16"):
         from sim.sched import InvalidCase
         if rep == "u16" and not all(0 <= x <= 65535 for p in pts for x in p):
@@ -244,3 +248,9 @@ def gen_u8_pair(rng, max_n):
         if q[1] == 0.0:
             q[1] = float(min(255, max(q[0], p[1] + rng.randint(-12, 12))))
     return A, B
+
+
+def as_points(obj):
+    """The float64 point list a materialised diagram denotes (exact for every dtype)."""
+    a = np.asarray(obj, dtype=np.float64)
+    return a.reshape(-1, 2).tolist() if a.size else []
